@@ -188,7 +188,7 @@ func checkC09(c *Ctx) {
 			live, how, lits := m.livenessLits(gs)
 			lock := la.MustBefore(in)[m.implMuW()]
 			for _, l := range lits {
-				if ok, at := m.readsUnderLock(l, own, la, m.path(m.Mu)); !ok && live {
+				if ok, at := m.readsUnderLockAt(l, own, la, m.path(m.Mu), in); !ok && live {
 					live = false
 					c.viol("R1", key, in, "the run-liveness test (%s) is made before the election mutex is taken (%s read at %s): Stop can store STOPPED between the test and the lock, and this store then turns STOPPED back into %s", how, clip(l.S.String(), 80), c.posOf(at), s)
 					return
@@ -644,7 +644,7 @@ func checkC09(c *Ctx) {
 			fresh := true
 			var at ssa.Instruction
 			for _, l := range lits {
-				if ok, bad := m.readsUnderLock(l, own, la, m.path(m.Mu)); !ok {
+				if ok, bad := m.readsUnderLockAt(l, own, la, m.path(m.Mu), sp.At); !ok {
 					fresh, at = false, bad
 				}
 			}
